@@ -32,7 +32,7 @@ func (g *synGen) name() string {
 }
 
 func (g *synGen) text() string {
-	al := []string{"a", "文", "字", " ", "，", "1", "😀", "\n", "`", "”", "“", "「", "：", "x y", "\t"}
+	al := []string{"a", "文", "字", " ", "，", "1", "😀", "\n", "\r\n", "\r", "\n\n", "`", "”", "“", "「", "：", "x y", "\t"}
 	n := g.r.Intn(4)
 	s := ""
 	for i := 0; i < n; i++ {
